@@ -98,8 +98,11 @@ def rule_lossless_tokenizer(ctx):
                 if g.qn in allowed:
                     continue
                 cs = _conds(g, n)
-                # the preprocessor-body scanner drops a blank that follows a backslash
-                ok = g.qn == "parse_next" and ("ch == ' '", True) in cs and ("last == '\\\\'", True) in cs
+                # the preprocessor-body scanner drops a blank (space or tab) that follows a backslash - all of them, or those that
+                # run to the end of the line
+                flat = [(c.replace(chr(92), ""), pol) for c, pol in cs]
+                ok = g.qn == "parse_next" and ("last == ''", True) in flat and \
+                    (("ch == ' '", True) in flat or ("ch == ' ' || ch == 't'", True) in flat or ("only_blanks_to_end_of_line(ctx)", True) in flat)
                 r.check(ok, "%s/discarded-%s" % (g.qn, n["c"].split("::")[-1]), db.loc(g, n), "%s reads an input character and throws it away (under %s)" % (g.qn, cs[-3:]))
     r.require(n_get >= 60, "only %d get()/expect() sites in the tokenizer" % n_get)
     r.floor(5)
